@@ -85,16 +85,19 @@ structure GateSt where
   unblocked : Bool := false
   deriving Repr, DecidableEq
 
-/-- `needBlock`: the entry point is an inbox POST -/
+def GateSt.isOpen (needBlock : Bool) (s : GateSt) : Bool := s.authed && (s.unblocked || !needBlock)
+
+/-- how the gate moves: a successful authentication, a negative answer of the block check -/
+def gateNext (s : GateSt) : (c : Call) → c.Resp → GateSt
+  | .authGetInbox, .ok true | .authGetOutbox, .ok true | .authPostInbox, .ok true | .authPostOutbox, .ok true =>
+    { s with authed := true }
+  | .blocked _, .ok false => { s with unblocked := true }
+  | _, _ => s
+
+/-- `needBlock`: the entry point is an inbox POST.  An effect call while the gate is shut is a violation. -/
 def gateMon (needBlock : Bool) : Mon where
   S := GateSt
-  step s c r :=
-    if c.isEffect && !(s.authed && (s.unblocked || !needBlock)) then none
-    else match c, r with
-      | .authGetInbox, .ok true | .authGetOutbox, .ok true | .authPostInbox, .ok true | .authPostOutbox, .ok true =>
-        some { s with authed := true }
-      | .blocked _, .ok false => some { s with unblocked := true }
-      | _, _ => some s
+  step s c r := if c.isEffect && !(s.isOpen needBlock) then none else some (gateNext s c r)
 
 /-- the ActivityStreams handler consults nobody: its Database access is all it does -/
 def handlerGateMon : Mon where
